@@ -46,36 +46,66 @@ Lemma reads_dbl_list ds n :
   Forall wf_dbl ds -> n = lenZ ds -> reads (rrepZ n rd_dbl) (map (r_dbl "") ds) ds.
 Proof. apply reads_dbl_list_t. Qed.
 
-(* ------------------------------------------------------------------ ANeigh, NeighUnique, NeighBench, NeighCell *)
+(* ------------------------------------------------------------------ neighbourhoods *)
+(* The core of each file (what every version writes) gives back the object with the default options; the options
+   appended by the dialect [tail] give back the options. *)
 Definition wf_aneigh (a : aneigh) : Prop := a = aneigh_default (an_ndim a).
+Definition wf_aneighD (tail : bool) (a : aneigh) : Prop := tail = false -> wf_aneigh a.
 
 Lemma reads_ANeigh a : reads deser_ANeigh (ser_ANeigh a) (aneigh_default (an_ndim a)).
 Proof. unfold deser_ANeigh, ser_ANeigh. rd. reflexivity. Qed.
 
-Lemma NeighUnique_reads a : wf_aneigh a -> reads deser_NeighUnique (ser_NeighUnique a) a.
-Proof. intros H. unfold wf_aneigh in H. pose proof (reads_ANeigh a) as R. rewrite <- H in R. exact R. Qed.
-
-Definition wf_NeighBench (o : neigh_bench) : Prop :=
-  wf_aneigh (nb_base o) /\ wf_dbl (nb_bipt_width o) /\ nb_width o = nb_bipt_width o.
-Lemma NeighBench_reads o : wf_NeighBench o -> reads deser_NeighBench (ser_NeighBench o) o.
+Lemma reads_options tail a :
+  wf_aneighD tail a -> reads (deser_ANeigh_options tail (aneigh_default (an_ndim a))) (ser_ANeigh_options tail a) a.
 Proof.
-  destruct o as [a w bw]. unfold wf_NeighBench. simpl. intros (Ha & Hw & ->).
-  unfold deser_NeighBench, ser_NeighBench. cbn [nb_base nb_width nb_bipt_width].
-  eapply reads_bind; [apply reads_ANeigh|]. rd. rewrite <- Ha. reflexivity.
+  intros H. unfold deser_ANeigh_options, ser_ANeigh_options. destruct tail.
+  - apply reads_not_eod; [reflexivity|]. unfold rd_options. rd. rewrite !b2z_z2b. destruct a; reflexivity.
+  - apply reads_ret_eq. symmetry. apply H. reflexivity.
 Qed.
 
-Definition wf_NeighCell (o : neigh_cell) : Prop := wf_aneigh (nc_base o).
-Lemma NeighCell_reads o : wf_NeighCell o -> reads deser_NeighCell (ser_NeighCell o) o.
+Lemma NeighUnique_reads tail a : wf_aneighD tail a -> reads (deser_NeighUniqueD tail) (ser_NeighUniqueD tail a) a.
+Proof.
+  intros H. unfold deser_NeighUniqueD, ser_NeighUniqueD, deser_NeighUnique, ser_NeighUnique.
+  eapply reads_bind; [apply reads_ANeigh|]. apply reads_options; auto.
+Qed.
+
+Definition wf_NeighBench (tail : bool) (o : neigh_bench) : Prop :=
+  wf_aneighD tail (nb_base o) /\ wf_dbl (nb_bipt_width o) /\ nb_width o = nb_bipt_width o.
+Lemma NeighBench_core o : wf_dbl (nb_bipt_width o) ->
+  reads deser_NeighBench (ser_NeighBench o)
+        {| nb_base := aneigh_default (an_ndim (nb_base o)); nb_width := nb_bipt_width o; nb_bipt_width := nb_bipt_width o |}.
+Proof.
+  destruct o as [a w bw]. simpl. intros Hw. unfold deser_NeighBench, ser_NeighBench. cbn [nb_base nb_width nb_bipt_width].
+  eapply reads_bind; [apply reads_ANeigh|]. rd. reflexivity.
+Qed.
+Lemma NeighBench_reads tail o : wf_NeighBench tail o -> reads (deser_NeighBenchD tail) (ser_NeighBenchD tail o) o.
+Proof.
+  destruct o as [a w bw]. unfold wf_NeighBench. simpl. intros (Ha & Hw & ->).
+  unfold deser_NeighBenchD, ser_NeighBenchD.
+  eapply reads_bind; [apply NeighBench_core; auto|]. cbn [nb_base nb_width nb_bipt_width].
+  rewrite <- (app_nil_r (ser_ANeigh_options tail a)). eapply reads_bind; [apply reads_options; auto|]. apply reads_ret.
+Qed.
+
+Definition wf_NeighCell (tail : bool) (o : neigh_cell) : Prop := wf_aneighD tail (nc_base o).
+Lemma NeighCell_core o :
+  reads deser_NeighCell (ser_NeighCell o) {| nc_base := aneigh_default (an_ndim (nc_base o)); nc_nmini := nc_nmini o |}.
+Proof.
+  destruct o as [a n]. unfold deser_NeighCell, ser_NeighCell. cbn [nc_base nc_nmini].
+  eapply reads_bind; [apply reads_ANeigh|]. rd. reflexivity.
+Qed.
+Lemma NeighCell_reads tail o : wf_NeighCell tail o -> reads (deser_NeighCellD tail) (ser_NeighCellD tail o) o.
 Proof.
   destruct o as [a n]. unfold wf_NeighCell. simpl. intros Ha.
-  unfold deser_NeighCell, ser_NeighCell. cbn [nc_base nc_nmini].
-  eapply reads_bind; [apply reads_ANeigh|]. rd. rewrite <- Ha. reflexivity.
+  unfold deser_NeighCellD, ser_NeighCellD.
+  eapply reads_bind; [apply NeighCell_core|]. cbn [nc_base nc_nmini].
+  rewrite <- (app_nil_r (ser_ANeigh_options tail a)). eapply reads_bind; [apply reads_options; auto|]. apply reads_ret.
 Qed.
 
 (* ------------------------------------------------------------------ NeighMoving *)
-(* what survives: everything but the ANeigh flags and _distCont.  Isotropic, anisotropic and rotated search ellipsoids. *)
-Definition wf_NeighMoving (o : neigh_moving) : Prop :=
-  wf_aneigh (nm_base o) /\ nm_distcont o = None /\ wf_dbl (nm_radius o) /\ Forall wf_dbl (nm_coeffs o)
+(* isotropic, anisotropic and rotated search ellipsoids; the ANeigh options and _distCont survive in the dialect that
+   stores them *)
+Definition wf_NeighMoving_core (o : neigh_moving) : Prop :=
+  wf_dbl (nm_radius o) /\ Forall wf_dbl (nm_coeffs o)
   /\ nm_nsect o = (if flag_sector (an_ndim (nm_base o)) (nm_nsect o) then Z.max (nm_nsect o) 1 else 1)
   /\ (if nm_aniso o
       then lenZ (nm_coeffs o) = an_ndim (nm_base o) /\ nm_coeffs o <> [] /\
@@ -83,11 +113,18 @@ Definition wf_NeighMoving (o : neigh_moving) : Prop :=
             then lenZ (nm_rotmat o) = an_ndim (nm_base o) * an_ndim (nm_base o) /\ Forall wf_dbl (nm_rotmat o) /\ nm_rotmat o <> []
             else nm_rotmat o = idmat (length (nm_coeffs o)))
       else nm_coeffs o = [d1; d1] /\ nm_rot o = false /\ nm_rotmat o = idmat 2).
+Definition wf_NeighMoving (tail : bool) (o : neigh_moving) : Prop :=
+  wf_aneighD tail (nm_base o) /\ (if tail then wf_dbl (nm_distcont o) else nm_distcont o = None) /\ wf_NeighMoving_core o.
 
-Lemma NeighMoving_reads o : wf_NeighMoving o -> reads deser_NeighMoving (ser_NeighMoving o) o.
+Definition nm_reset (o : neigh_moving) : neigh_moving :=
+  {| nm_base := aneigh_default (an_ndim (nm_base o)); nm_nmini := nm_nmini o; nm_nmaxi := nm_nmaxi o; nm_nsect := nm_nsect o;
+     nm_nsmax := nm_nsmax o; nm_distcont := None; nm_radius := nm_radius o; nm_aniso := nm_aniso o; nm_rot := nm_rot o;
+     nm_coeffs := nm_coeffs o; nm_rotmat := nm_rotmat o |}.
+
+Lemma NeighMoving_core o : wf_NeighMoving_core o -> reads deser_NeighMoving (ser_NeighMoving o) (nm_reset o).
 Proof.
   destruct o as [a nmini nmaxi nsect nsmax dc radius aniso rot coeffs rotmat].
-  unfold wf_NeighMoving. simpl. intros (Ha & -> & Hr & Hc & Hns & Han).
+  unfold wf_NeighMoving_core, nm_reset. simpl. intros (Hr & Hc & Hns & Han).
   unfold deser_NeighMoving, ser_NeighMoving.
   cbn [nm_base nm_nmini nm_nmaxi nm_nsect nm_nsmax nm_distcont nm_radius nm_aniso nm_rot nm_coeffs nm_rotmat].
   eapply reads_bind; [apply reads_ANeigh|]. cbn [an_ndim aneigh_default app]. rd.
@@ -103,12 +140,26 @@ Proof.
         apply reads_ret. }
       cbv beta iota zeta. rewrite Hn. cbn [null].
       assert (Hm : null rotmat = false) by (destruct rotmat; simpl; congruence). rewrite Hm.
-      apply reads_ret_eq. rewrite <- Hns, <- Ha. reflexivity.
+      apply reads_ret_eq. rewrite <- Hns. reflexivity.
     + subst rotmat.
       rewrite <- (app_nil_r (map _ coeffs ++ _)). eapply reads_bind.
       { eapply reads_bind; [apply reads_dbl_list; eauto|]. cbn [app b2z]. rd. cbn [z2b Z.eqb negb]. rd. reflexivity. }
-      cbv beta iota zeta. rewrite Hn. cbn [null]. apply reads_ret_eq. rewrite <- Hns, <- Ha. reflexivity.
-  - destruct Han as (-> & -> & ->). rd. cbn. rewrite <- Hns, <- Ha. apply reads_ret_eq. reflexivity.
+      cbv beta iota zeta. rewrite Hn. cbn [null]. apply reads_ret_eq. rewrite <- Hns. reflexivity.
+  - destruct Han as (-> & -> & ->). rd. cbn. rewrite <- Hns. apply reads_ret_eq. reflexivity.
+Qed.
+
+Lemma NeighMoving_reads tail o : wf_NeighMoving tail o -> reads (deser_NeighMovingD tail) (ser_NeighMovingD tail o) o.
+Proof.
+  intros (Ha & Hdc & Hcore). unfold deser_NeighMovingD, ser_NeighMovingD.
+  eapply reads_bind; [apply NeighMoving_core; auto|].
+  destruct o as [a nmini nmaxi nsect nsmax dc radius aniso rot coeffs rotmat]. unfold nm_reset.
+  cbn [nm_base nm_nmini nm_nmaxi nm_nsect nm_nsmax nm_distcont nm_radius nm_aniso nm_rot nm_coeffs nm_rotmat] in *.
+  eapply reads_bind; [apply reads_options; auto|].
+  destruct tail.
+  - rewrite <- (app_nil_r [_]). eapply reads_bind with (a := dc).
+    + apply reads_not_eod; [reflexivity|]. apply reads_dbl; auto.
+    + apply reads_ret.
+  - subst dc. rd. reflexivity.
 Qed.
 
 (* regression witnesses of the former defects (coefficients multiplied by the radius, rotation flag lost): they now
@@ -181,20 +232,40 @@ Proof.
 Qed.
 
 (* ------------------------------------------------------------------ AnamHermite *)
-(* point or block support (any r) *)
-Definition wf_AnamHermite (o : anam_hermite) : Prop :=
+(* point or block support (any r).  A reader that recomputes mean and variance gives the object back when they are the
+   ones the coefficients give; a reader that keeps them gives it back when they are defined. *)
+Definition wf_AnamHermite (keep : bool) (o : anam_hermite) : Prop :=
   wf_dbl (ah_azmin o) /\ wf_dbl (ah_azmax o) /\ wf_dbl (ah_aymin o) /\ wf_dbl (ah_aymax o) /\
   wf_dbl (ah_pzmin o) /\ wf_dbl (ah_pzmax o) /\ wf_dbl (ah_pymin o) /\ wf_dbl (ah_pymax o) /\
   wf_dbl (ah_mean o) /\ wf_dbl (ah_variance o) /\ wf_dbl (ah_rcoef o) /\ Forall wf_dbl (ah_psi o) /\
   ah_psi o <> [] /\
-  ah_mean o = hd d0 (ah_psi o) /\ ah_variance o = hermite_variance (ah_rcoef o) (ah_psi o).
+  (if keep then ah_mean o <> None /\ ah_variance o <> None
+   else ah_mean o = hd d0 (ah_psi o) /\ ah_variance o = hermite_variance (ah_rcoef o) (ah_psi o)).
 
-Lemma AnamHermite_reads o : wf_AnamHermite o -> reads deser_AnamHermite (ser_AnamHermite o) o.
+Lemma AnamHermite_reads keep o : wf_AnamHermite keep o -> reads (deser_AnamHermite keep) (ser_AnamHermite o) o.
 Proof.
   destruct o as [a1 a2 a3 a4 p1 p2 p3 p4 m v r psi]. unfold wf_AnamHermite. cbn -[hermite_variance csd].
-  intros (H1 & H2 & H3 & H4 & H5 & H6 & H7 & H8 & H9 & H10 & H11 & H12 & Hne & Hm & Hv).
+  intros (H1 & H2 & H3 & H4 & H5 & H6 & H7 & H8 & H9 & H10 & H11 & H12 & Hne & Hk).
   unfold deser_AnamHermite, ser_AnamHermite. cbn -[hermite_variance csd psi_eff]. rd.
-  eapply reads_bind_cons; [apply reads_vdbl; auto|]. apply reads_ret_eq. subst m v. reflexivity.
+  eapply reads_bind_cons; [apply reads_vdbl; auto|]. apply reads_ret_eq.
+  destruct keep; cbn [andb].
+  - destruct Hk as [Hm Hv]. destruct m; [|congruence]. destruct v; [|congruence]. reflexivity.
+  - destruct Hk as [-> ->]. reflexivity.
+Qed.
+
+Definition wf_AnamHermiteD (keep btail : bool) (o : anam_hermiteD) : Prop :=
+  wf_AnamHermite keep (ahd_core o) /\ (btail = false -> ahd_bound o = true).
+Lemma AnamHermiteD_reads keep btail o :
+  wf_AnamHermiteD keep btail o -> reads (deser_AnamHermiteD keep btail) (ser_AnamHermiteD btail o) o.
+Proof.
+  destruct o as [c fb]. unfold wf_AnamHermiteD. cbn [ahd_core ahd_bound]. intros [Hc Hb].
+  unfold deser_AnamHermiteD, ser_AnamHermiteD. cbn [ahd_core ahd_bound].
+  eapply reads_bind; [apply AnamHermite_reads; auto|].
+  destruct btail.
+  - rewrite <- (app_nil_r [_]). eapply reads_bind with (a := fb).
+    + apply reads_not_eod; [reflexivity|]. rd. apply b2z_z2b.
+    + apply reads_ret.
+  - rewrite Hb by reflexivity. rd. reflexivity.
 Qed.
 
 (* regression witness of the former defect (block support: coefficients written multiplied by r^i) *)
@@ -275,6 +346,18 @@ Lemma good_Polygons pes : forallb good_rec (ser_Polygons pes) = true.
 Proof. unfold ser_Polygons. good. apply forallb_flat_map_true. intros. apply good_PolyElem. Qed.
 Lemma good_AnamHermite o : forallb good_rec (ser_AnamHermite o) = true.
 Proof. unfold ser_AnamHermite. good. Qed.
+Lemma good_options tail a : forallb good_rec (ser_ANeigh_options tail a) = true.
+Proof. unfold ser_ANeigh_options. good. Qed.
+Lemma good_NeighUniqueD tail a : forallb good_rec (ser_NeighUniqueD tail a) = true.
+Proof. unfold ser_NeighUniqueD. rewrite forallb_app, good_options. unfold ser_NeighUnique. rewrite good_ANeigh. reflexivity. Qed.
+Lemma good_NeighBenchD tail o : forallb good_rec (ser_NeighBenchD tail o) = true.
+Proof. unfold ser_NeighBenchD. rewrite forallb_app, good_options, good_NeighBench. reflexivity. Qed.
+Lemma good_NeighCellD tail o : forallb good_rec (ser_NeighCellD tail o) = true.
+Proof. unfold ser_NeighCellD. rewrite forallb_app, good_options, good_NeighCell. reflexivity. Qed.
+Lemma good_NeighMovingD tail o : forallb good_rec (ser_NeighMovingD tail o) = true.
+Proof. unfold ser_NeighMovingD. rewrite !forallb_app, good_options, good_NeighMoving. destruct tail; good. Qed.
+Lemma good_AnamHermiteD btail o : forallb good_rec (ser_AnamHermiteD btail o) = true.
+Proof. unfold ser_AnamHermiteD. rewrite forallb_app, good_AnamHermite. destruct btail; good. Qed.
 
 (* ------------------------------------------------------------------ whole-file statements *)
 Definition reload {A} (name : string) (ser : A -> list record) (deser : reader A) (o : A) : option A :=
